@@ -30,7 +30,12 @@ Bases == <<
      Used(3, "ELECTRICIDAD", "REF", <<8, 0>>), Aux(3, "NEPB", <<0, 2>>), Out(3, "REF", <<-24, 0>>) >>,
   \* multi-service system with auxiliaries and outputs, plus legacy id 0 production
   << Used(1, "BIOMASA", "CAL", <<10, 4>>), Used(1, "BIOMASA", "ACS", <<2, 2>>), Out(1, "CAL", <<8, 3>>), Out(1, "ACS", <<2, 1>>),
-     Aux(1, "NEPB", <<4, 2>>), Prod(0, "EL_INSITU", <<2, 2>>), Used(0, "ELECTRICIDAD", "ILU", <<6, 6>>) >> >>
+     Aux(1, "NEPB", <<4, 2>>), Prod(0, "EL_INSITU", <<2, 2>>), Used(0, "ELECTRICIDAD", "ILU", <<6, 6>>) >>,
+  \* two heat pumps, each using ambient heat for two services, nothing declared: the completion is per system,
+  \* whatever the order in which the lines of the two systems are interleaved
+  << Used(1, "EAMBIENTE", "CAL", <<6, 2>>), Used(1, "EAMBIENTE", "ACS", <<2, 2>>), Used(2, "EAMBIENTE", "CAL", <<4, 8>>),
+     Used(2, "TERMOSOLAR", "ACS", <<2, 4>>), Used(2, "EAMBIENTE", "ACS", <<2, 0>>), Used(1, "ELECTRICIDAD", "CAL", <<4, 2>>),
+     Used(2, "ELECTRICIDAD", "CAL", <<2, 4>>) >> >>
 
 Init == \E b \in 1..Len(Bases) : base = b /\ file = FileOf(Bases[b]) /\ d = 0 /\ renamed = FALSE
 
